@@ -404,7 +404,7 @@ func (encryptor *QueryDataEncryptor) OnBind(ctx context.Context, statement sqlpa
 	return newValues, changed, nil
 }
 
-func (encryptor *QueryDataEncryptor) getInsertPlaceholders(ctx context.Context, insert *sqlparser.Insert) (map[int]string, error) {
+func (encryptor *QueryDataEncryptor) getInsertPlaceholders(ctx context.Context, insert *sqlparser.Insert, boundValuesCount int) (map[int]string, error) {
 	tableName := insert.Table.Name
 	logger := logging.GetLoggerFromContext(ctx)
 	// Look for the schema of the table where the INSERT happens.
@@ -442,12 +442,14 @@ func (encryptor *QueryDataEncryptor) getInsertPlaceholders(ctx context.Context, 
 	// as inserted values. We don't support functions, casts, inserting query results, etc.
 	//
 	// Walk through the query to find out which placeholders stand for which columns.
-	// Also count amount of passed value to validate that placeholder's index doesn't go out of this number
-	valuesCount := 0
+	// A placeholder number is valid when a parameter with this number is bound, like in encryptUpdateValues.
+	// It must not be compared with the amount of VALUES items seen so far: a value position may hold several
+	// placeholders (`VALUES (IFNULL(?, ?), ?)`), the numbers of the following ones are then bigger than the
+	// amount of values, the statement failed with ErrInvalidPlaceholder and its parameters were forwarded
+	// in the clear.
 	switch rows := insert.Rows.(type) {
 	case sqlparser.Values:
 		for _, row := range rows {
-			valuesCount += len(row)
 			for i, value := range row {
 				if i >= len(columns) {
 					logger.WithFields(logrus.Fields{"value_index": i, "column_count": len(columns)}).Warningln("Amount of values in INSERT bigger than column count")
@@ -455,11 +457,24 @@ func (encryptor *QueryDataEncryptor) getInsertPlaceholders(ctx context.Context, 
 				}
 				switch value := value.(type) {
 				case *sqlparser.SQLVal:
-					err := encryptor.updatePlaceholderMap(valuesCount, placeholders, value, columns[i])
+					err := encryptor.updatePlaceholderMap(boundValuesCount, placeholders, value, columns[i])
 					if err != nil {
 						return nil, err
 					}
 				}
+			}
+		}
+	}
+	// ON DUPLICATE KEY UPDATE column = ?: the parameter is a value of that column of the same table, exactly
+	// as in UPDATE ... SET (the textual form of the clause is handled by encryptInsertQuery). Without this
+	// the parameter was forwarded in the clear.
+	for _, expr := range insert.OnDup {
+		if !expr.Name.Qualifier.IsEmpty() && expr.Name.Qualifier.Name.ValueForConfig() != tableName.ValueForConfig() {
+			continue
+		}
+		if value, ok := expr.Expr.(*sqlparser.SQLVal); ok {
+			if err := encryptor.updatePlaceholderMap(boundValuesCount, placeholders, value, expr.Name.Name.ValueForConfig()); err != nil {
+				return nil, err
 			}
 		}
 	}
@@ -497,20 +512,12 @@ func (encryptor *QueryDataEncryptor) encryptInsertValues(ctx context.Context, in
 		logrus.WithField("table", tableName).Debugln("No encryption schema")
 		return values, false, nil
 	}
-	placeholders, err := encryptor.getInsertPlaceholders(ctx, insert)
+	placeholders, err := encryptor.getInsertPlaceholders(ctx, insert, len(values))
 	if err != nil {
 		logger.WithError(err).Errorln("Can't extract placeholders from INSERT query")
 		return values, false, err
 	}
 	encryptor.savePlaceholderSettingIntoClientSession(ctx, placeholders, schema)
-
-	// TODO(ilammy, 2020-10-13): handle ON DUPLICATE KEY UPDATE clauses
-	// These clauses are handled for textual queries. It would be nice to encrypt
-	// any prepared statement parameters that are used there as well.
-	// See "encryptInsertQuery" for reference.
-	if len(insert.OnDup) > 0 {
-		logrus.Warning("ON DUPLICATE KEY UPDATE is not supported in prepared statements")
-	}
 
 	// Now that we know the placeholder mapping,
 	// encrypt the values inserted into encrypted columns.
